@@ -91,3 +91,79 @@ package fiber
 //@ ..   app.config.TrustProxyConfig.ranges[old(len(app.config.TrustProxyConfig.ranges))] == cidrNet(ipAddress)
 //@   ensures ranges-kept: forall(k, 0, old(len(app.config.TrustProxyConfig.ranges)), app.config.TrustProxyConfig.ranges[k] == old(app.config.TrustProxyConfig.ranges[k]))
 //@   ensures bad-range-adds-nothing: strContains(ipAddress, "/") && !cidrOK(ipAddress) ==> app.config.TrustProxyConfig.ranges == old(app.config.TrustProxyConfig.ranges)
+
+// ---------------------------------------------------------------------------------------------
+// C02: a handler only runs on paths its pattern describes; constraints are enforced
+// ---------------------------------------------------------------------------------------------
+
+//@ fn noSlash(s string) bool = forall(k, 0, len(s), s[k] != '/')
+// pcount(p, s): number of parameter segments among the first s segments of parser p (the slot of
+// segment s in the parameter array). Its defining recurrence is part of the parser's well-formedness.
+//@ fn pcount(p ref, s int) int
+//@ fn checkOK(c ref, v string, ep int) bool
+
+//@ macro wfParser(p) = pcount(p, 0) == 0 &&
+//@ ..  forall(s, 0, len(p.segs), pcount(p, s + 1) == pcount(p, s) + ite(p.segs[s].IsParam, 1, 0)) &&
+//@ ..  forallI(a, forallI(b, 0 <= a && a <= b && b <= len(p.segs) ==> pcount(p, a) <= pcount(p, b))) &&
+//@ ..  pcount(p, len(p.segs)) <= maxParams &&
+//@ ..  forall(s, 0, len(p.segs), p.segs[s] != nil && (!p.segs[s].IsParam ==> p.segs[s].Length == len(p.segs[s].Const) && p.segs[s].Length >= 1) &&
+//@ ..     (p.segs[s].IsParam ==> p.segs[s].Length == 0 || p.segs[s].Length == 1))
+
+// What the property demands of the value v captured for parameter segment seg.
+//@ macro valueOK(seg, v) = (!seg.IsOptional ==> len(v) > 0) && (!seg.IsGreedy && seg.IsLast ==> noSlash(v)) &&
+//@ ..  (len(v) > 0 ==> forall(j, 0, len(seg.Constraints), checkOK(seg.Constraints[j], v, epoch)))
+
+// The detection path is the request path with configured case folding applied (and trailing slashes removed).
+//@ macro foldPrefix(dp, p) = len(dp) <= len(p) && forall(k, 0, len(dp), dp[k] == p[k] || dp[k] == lowerb(p[k]))
+
+//@ func (*Constraint).CheckConstraint
+//@   pure
+//@   nosafety bounds
+//@   defines result == checkOK(c, param, epoch)
+
+//@ func findParamLenForLastSegment
+//@   props C02 C07
+//@   pure
+//@   ensures in-range: 0 <= result && result <= len(s)
+//@   ensures named-no-slash: !seg.IsGreedy ==> noSlash(s[:result])
+
+//@ func findGreedyParamLen
+//@   props C02 C07
+//@   pure
+//@   loop 1
+//@     invariant prefix: len(s) <= len(old(s))
+//@   ensures in-range: 0 <= result && result <= len(s)
+
+// A non-greedy value that ends before the end of s (a delimiter was found), or that belongs to the last
+// segment, contains no slash. (A value that swallows all of s because its delimiter does not occur cannot
+// lead to a match: the following literal then has nothing to match.)
+//@ func findParamLen
+//@   props C02 C07
+//@   pure
+//@   requires param-length: segment.Length == 0 || segment.Length == 1
+//@   ensures in-range: 0 <= result && result <= len(s)
+//@   ensures named-no-slash: !segment.IsGreedy && (segment.IsLast || result < len(s)) ==> noSlash(s[:result])
+
+//@ func (*routeParser).getMatch
+//@   props C02 C05 C07
+//@   requires wf-parser: wfParser(parser)
+//@   requires dp-folds-path: foldPrefix(detectionPath, path)
+//@   modifies elems(params)
+//@   atcall (*Constraint).CheckConstraint: on-captured-value: param == path[:i]
+//@   loop 1
+//@     invariant slot: paramsIterator == pcount(parser, rangeindex + 1)
+//@     invariant seg-index: rangeindex + 1 <= len(parser.segs)
+//@     invariant dp-folds-path: foldPrefix(detectionPath, path)
+//@     invariant values-ok: forall(s, 0, rangeindex + 1, parser.segs[s].IsParam ==> valueOK(parser.segs[s], params[pcount(parser, s)]))
+//@   loop 2
+//@     invariant checked-so-far: forall(j, 0, rangeindex + 1, checkOK(segment.Constraints[j], params[paramsIterator], epoch))
+//@   ensures values-ok: result ==> forall(s, 0, len(parser.segs), parser.segs[s].IsParam ==> valueOK(parser.segs[s], params[pcount(parser, s)]))
+
+//@ func (*Route).match
+//@   props C02 C01 C05
+//@   requires wf-parser: wfParser(r.routeParser)
+//@   requires dp-folds-path: foldPrefix(detectionPath, path)
+//@   modifies elems(params)
+//@   ensures params-imply-parser: result && len(r.Params) > 0 && !r.star && !(r.root && len(detectionPath) == 1 && detectionPath[0] == '/') ==> called((*routeParser).getMatch) && last((*routeParser).getMatch)
+//@   ensures values-ok: result && len(r.Params) > 0 && !r.star && !(r.root && len(detectionPath) == 1 && detectionPath[0] == '/') ==>
+//@ ..   forall(s, 0, len(r.routeParser.segs), r.routeParser.segs[s].IsParam ==> valueOK(r.routeParser.segs[s], params[pcount(r.routeParser, s)]))
